@@ -3123,7 +3123,7 @@ orc_neon_rule_select1ql (OrcCompiler *p, void *user, OrcInstruction *insn)
         p->vars[insn->dest_args[0]],
         p->vars[insn->src_args[0]], p->insn_shift);
   } else {
-    ORC_ASM_CODE(p,"  vtrn.32 %s, %s\n",
+    ORC_ASM_CODE(p,"  vshrn.i64 %s, %s, #32\n",
         orc_neon_reg_name (p->vars[insn->dest_args[0]].alloc),
         orc_neon_reg_name_quad (p->vars[insn->src_args[0]].alloc));
     code = NEON_BINARY (0xf2a00810,
